@@ -1,5 +1,5 @@
 import os, shutil, subprocess, sys, re
-BASE="/root/work/C13/repo"   # the copy with fix-F2..F4 applied; run with VERIF_C13_FIXED=1 (default)
+BASE="/root/work/C13/repo"   # a private copy of /repo HEAD (fix-F2..F4 are in it)
 REVERTS = {"R2_revert_fix_F2": "/root/work/C13/fix-F2.diff", "R3_revert_fix_F3": "/root/work/C13/fix-F3.diff", "R4_revert_fix_F4": "/root/work/C13/fix-F4.diff"}
 MUTS = {
  "M1_ns_ignores_slash": ("hed/models/hed_tag.py", "            if first_slash != -1 and first_colon > first_slash:\n                return \"\"\n", "            if first_slash != -1 and first_colon > first_slash + 1:\n                return \"\"\n"),
@@ -12,7 +12,8 @@ MUTS = {
  "M15_same_version_other_prefix_check": ("hed/schema/hed_schema_io.py", "        if version in out_versions[schema_namespace]:", "        if version in out_versions[schema_namespace] and not schema_namespace:"),
  "M16_find_rem_offbyone": ("hed/schema/hed_schema_group.py", "        return specific_schema._find_tag_entry(tag, schema_namespace)", "        return specific_schema._find_tag_entry(tag, schema_namespace[:-1]) if len(schema_namespace) > 3 else specific_schema._find_tag_entry(tag, schema_namespace)"),
 }
-PATCHES = {"S2_seeded_find_tag_entry_guard": "/root/work/seedout/C13/2/patch.diff"}
+PATCHES = {"S1_seeded": "/root/work/seedout/C13/1/patch.diff", "S2_seeded_find_tag_entry_guard": "/root/work/seedout/C13/2/patch.diff",
+           "S3_seeded_no_reidentification": "/root/work/seedout/C13/3/patch.diff", "S4_seeded_cached_prefixed_names": "/root/work/seedout/C13/4/patch.diff"}
 which = sys.argv[1:] or (list(PATCHES) + list(REVERTS) + list(MUTS))
 for name in which:
     d = f"/root/work/C13/mut/{name}"
@@ -29,7 +30,7 @@ for name in which:
         old, new = (old.replace("\n", "\r\n"), new.replace("\n", "\r\n")) if "\r\n" in s else (old, new)
         assert s.count(old) == 1, (name, s.count(old))
         open(p, "w", newline="").write(s.replace(old, new))
-    r = subprocess.run(["./check", "C13", "--tier", "quick"], cwd="/root/work/C13/verif", env=dict(os.environ, VERIF_REPO=d, VERIF_SEED="0"), capture_output=True, text=True)
+    r = subprocess.run(["./check", "C13", "--tier", "quick"], cwd="/root/work/C13/verif", env=dict(os.environ, VERIF_REPO=d, VERIF_SEED=os.environ.get("VERIF_SEED", "0")), capture_output=True, text=True)
     lines = [l for l in r.stdout.split("\n") if l.startswith("VIOLATION") or l.startswith("  clause") or l.startswith("C13 ")]
     print("=====", name, "exit", r.returncode)
     print("\n".join(l[:260] for l in lines[:9]))
